@@ -10,7 +10,8 @@ pub struct GroupMetadataV2 {
     /// An integer defining the version of the storage specification to which the group adheres. Must be `2`.
     pub zarr_format: monostate::MustBe!(2u64),
     /// Optional user metadata.
-    #[serde(default, flatten)]
+    // Not flattened: two flattened maps each receive (and write) every remaining key
+    #[serde(default, skip_serializing_if = "serde_json::Map::is_empty")]
     pub attributes: serde_json::Map<String, serde_json::Value>,
     /// Additional fields.
     ///
